@@ -14,6 +14,7 @@ from .core.align import _check_stack_args, _get_axes, stack, concatenate, _check
 from .core.transform import interp_like, _interp_internal_from_weight, _interp_internal_get_weights, _interp_internal_maybe_sort
 from .core import pandas_obj
 from .core.bases import AbstractDataset, GetSetDelAttrMixin, OpMixin
+from .core.indexing import locate_many
 from .prettyprinting import repr_dataset
 
 class DatasetAxes(Axes):
@@ -677,14 +678,19 @@ class Dataset(AbstractDataset, dict, OpMixin, GetSetDelAttrMixin):
         else:
             values = np.asarray(values)
 
-        # take axis, do not raise error
-        dataset = self.take_axis(values, axis=axis, indexing='label', 
-                                 mode='raise' if raise_error else 'clip')
+        ax = self.axes[axis]
+
+        # take axis, do not raise error (same neighbour as DimArray.reindex_axis for method='left' / 'right')
+        indices = locate_many(ax.values, values, side=method or 'left')
+        dataset = self.take_axis(indices, axis=axis, indexing='position')
 
         # Replace mismatch with missing values?
         newax = dataset.axes[axis]
         mask = newax.values != values
         any_nan = np.any(mask)
+
+        if any_nan and raise_error:
+            raise IndexError("Some values where not found in the axis: {}".format(values[mask]))
 
         if any_nan:
             # Make sure the axis values match the requested new axis
